@@ -14,6 +14,10 @@
 (*                        chain (packed: overridden by an explicit option) *)
 (*   Semantics            presence / closedness / packedness / delimited   *)
 (*                        kind in Views follow from the resolved features  *)
+(* Both skeletons also start in their *untyped* form (`type` omitted on    *)
+(* every message / enum field and extension, the kind inferred from        *)
+(* type_name) and then receive every message_encoding setting at every     *)
+(* placement: the delimited kind must not depend on how the kind is spelt. *)
 (* Every reachable valid file is emitted; the replay compares the resolved *)
 (* features and derived accessors of protodesc.NewFile and filedesc.Builder*)
 (* with Views.                                                             *)
@@ -48,13 +52,20 @@ SmallSkeleton ==
                 [NewMsg("M2", 1) EXCEPT !.fields = <<F("g2", 2, 1, KEnum, ".p.M1.M2.E2")>>],
                 [NewMsg("M3", 0) EXCEPT !.fields = <<F("h1", 1, 1, 5, "")>>]>>,
      !.enums = <<NewEnum("E2", 2, <<Val("E2_A", 0), Val("E2_B", 2)>>)>>,
-     !.exts = <<[F("x1", 1000, 3, 5, "") EXCEPT !.extendee = ".p.M1"]>>]
+     !.exts = <<[F("x1", 1000, 3, 5, "") EXCEPT !.extendee = ".p.M1"],
+                [F("x2", 1001, 1, KMessage, ".p.M1.M2") EXCEPT !.extendee = ".p.M1", !.parent = 2]>>]
 Skeleton == IF Skel = "small" THEN SmallSkeleton ELSE FullSkeleton
 \* the same skeleton with every default inverted at an outer level, so that an override *back* to the default is visible
 Inverted ==
   [Skeleton EXCEPT !.feat = [NoFS EXCEPT !.me = "DELIMITED", !.rfe = "EXPANDED", !.utf8 = "NONE", !.jf = "LEGACY_BEST_EFFORT",
                                          !.et = "CLOSED", !.ga = "API_OPEN", !.gl = "t"],
                    !.msgs[Len(Skeleton.msgs)].feat = [NoFS EXCEPT !.fp = "LEGACY_REQUIRED"]]
+
+\* the same files as a per-file parser writes them: `type` omitted wherever type_name says what the field is
+UntypedField(x) == IF x.type \in {KMessage, KEnum} THEN [x EXCEPT !.type = 0] ELSE x
+Untyped(f) == [f EXCEPT !.msgs = [i \in 1..Len(f.msgs) |-> [f.msgs[i] EXCEPT !.fields = [j \in 1..Len(f.msgs[i].fields) |-> UntypedField(f.msgs[i].fields[j])]]],
+                        !.exts = [i \in 1..Len(f.exts) |-> UntypedField(f.exts[i])]]
+IsUntyped(f) == \E i \in 1..Len(f.msgs) : \E j \in 1..Len(f.msgs[i].fields) : f.msgs[i].fields[j].type = 0
 
 Settings ==
   {[k |-> "fp", v |-> v] : v \in {"IMPLICIT", "EXPLICIT", "LEGACY_REQUIRED"}}
@@ -87,12 +98,15 @@ SetAt(f, p, s) ==
     [] p[1] = "ext" -> [f EXCEPT !.exts[p[2]].feat[s.k] = s.v]
 
 VARIABLES file, n
-ASSUME Valid(Skeleton, FALSE) /\ Valid(Inverted, FALSE)
-Init == file \in {Skeleton, Inverted} /\ n = 0
+ASSUME Valid(Skeleton, FALSE) /\ Valid(Inverted, FALSE) /\ Valid(Untyped(Skeleton), FALSE) /\ Valid(Untyped(Inverted), FALSE)
+Init == file \in {Skeleton, Inverted, Untyped(Skeleton), Untyped(Inverted)} /\ n = 0
 \* from the inverted skeleton the quick tier only places settings *back* to the edition default
 BackToDefault == {[k |-> "fp", v |-> "EXPLICIT"], [k |-> "et", v |-> "OPEN"], [k |-> "rfe", v |-> "PACKED"], [k |-> "utf8", v |-> "VERIFY"],
                   [k |-> "me", v |-> "LENGTH_PREFIXED"], [k |-> "jf", v |-> "ALLOW"], [k |-> "gl", v |-> "f"]}
-SettingsFrom(f) == IF Tier = "quick" /\ f.feat # NoFS THEN BackToDefault ELSE Settings
+\* the untyped skeletons receive every message_encoding setting at every placement (what an omitted `type` can affect)
+MessageEncodings == {[k |-> "me", v |-> "DELIMITED"], [k |-> "me", v |-> "LENGTH_PREFIXED"]}
+SettingsFrom(f) == IF IsUntyped(f) THEN MessageEncodings
+                   ELSE IF Tier = "quick" /\ f.feat # NoFS THEN BackToDefault ELSE Settings
 Next == /\ n < MaxOverrides
         /\ \E p \in Placements, s \in SettingsFrom(file) :
               /\ FeatAt(file, p)[s.k] = ""
